@@ -247,7 +247,11 @@ PROPS = {
     },
     "C15": {
         "level": "model_checking",
-        "claim": "The fixed-depth builder must return exactly the set of pushed cells with the requested flag (semantic equality with the forest "
+        "claim": "Model level: Builder.tla transcribes BMOCBuilderFixedDepth (push with dedup-last and sortedness tracking, drain at capacity, "
+                 "buff_to_bmoc with largest_lower_cell_sequence_len and the power-of-two arithmetic, merge by or) as a state machine and TLC checks, "
+                 "for every push sequence of <= 5 pushes over 8 (12) cells and every capacity, that accumulated + buffered = pushed at every step, "
+                 "that the sorted flag is truthful and that the result is None iff nothing was pushed (22 k / 280 k states). Code level: "
+                 "the fixed-depth builder must return exactly the set of pushed cells with the requested flag (semantic equality with the forest "
                  "of the pushed set), None iff nothing was pushed; pack must keep the cell-to-state map and leave no four full siblings; lower-depth "
                  "must produce Lower(Sem) (coarse cell kept iff it contained something, full iff entirely full). TLC enumerates every push sequence "
                  "of length <= 3 (4) over 6 (8) cells of depth 1 for each capacity 1..4 (1..5) and flag; the buffer being private, the harness "
@@ -258,6 +262,7 @@ PROPS = {
         "assumptions": BMOC_ASSUME,
         "stages": [
             {"kind": "mc", "module": "MC_Bmoc", "cfg": "MC_Bmoc_flags.cfg", "workers": 6},
+            {"kind": "mc", "module": "Builder", "cfg": {"quick": "MC_Builder.cfg", "thorough": "MC_Builder_d2.cfg"}, "workers": 6},
             {"kind": "gentrace", "module": "Gen_Bmoc", "cfg": {"quick": "Gen_Bmoc_pushes.cfg", "thorough": "Gen_Bmoc_pushes_thorough.cfg"}, "scenario": "BMOC",
              "trace_module": "Trace_Bmoc", "trace_cfg": "Trace_Bmoc.cfg", "exhaustive": True},
             {"kind": "gentrace", "module": "Gen_Bmoc", "cfg": {"quick": "Gen_Bmoc_cells.cfg", "thorough": "Gen_Bmoc_cells.cfg"}, "scenario": "BMOC",
